@@ -22,6 +22,10 @@ type fidelityResult struct {
 	SelfDisagree int    `json:"real_binary_disagreed_with_itself"`
 	Skipped      int    `json:"skipped"`
 	Wording      int    `json:"same_outcome_different_stderr_wording"`
+	// the stdout-enospc fault against reality: the same process with its
+	// stdout redirected to /dev/full
+	StdoutFull         int `json:"stdout_on_dev_full_compared"`
+	StdoutFullMismatch int `json:"stdout_on_dev_full_mismatches"`
 	First        string `json:"first_mismatch,omitempty"`
 }
 
@@ -43,6 +47,12 @@ type realOut struct {
 }
 
 func runReal(bin, dir string, p ProcSpec, stdin []byte) (realOut, error) {
+	return runRealTo(bin, dir, p, stdin, false)
+}
+
+// runRealTo runs the unmodified binary; with full set its stdout is /dev/full
+// (every write fails with ENOSPC).
+func runRealTo(bin, dir string, p ProcSpec, stdin []byte, full bool) (realOut, error) {
 	arg0 := p.Arg0
 	if arg0 == "" {
 		arg0 = "jd"
@@ -56,6 +66,14 @@ func runReal(bin, dir string, p ProcSpec, stdin []byte) (realOut, error) {
 	}
 	var so, se bytes.Buffer
 	cmd.Stdout, cmd.Stderr = &so, &se
+	if full {
+		f, err := os.OpenFile("/dev/full", os.O_WRONLY, 0)
+		if err != nil {
+			return realOut{}, err
+		}
+		defer f.Close()
+		cmd.Stdout = f
+	}
 	err := cmd.Run()
 	code := 0
 	if err != nil {
@@ -223,10 +241,95 @@ func fidelityMain(args []string) {
 				}
 			}
 		}
+		if res.Sessions%3 == 0 {
+			stdoutFullCheck(&res, bins, *dir, s, sim, *verbose)
+		}
 	}
 	os.RemoveAll(*dir)
 	b, _ := json.Marshal(res)
 	os.Stdout.Write(b)
+}
+
+// stdoutFullCheck compares the simulator's stdout-enospc fault with reality:
+// the last process of the session, which prints a result and succeeds, is run
+// once more with its stdout on /dev/full, in the simulator with the fault on
+// its first stdout write. Exit status, files and "says something on stderr"
+// must agree.
+func stdoutFullCheck(res *fidelityResult, bins map[string]string, dir string, s Session, sim *sessRun, verbose bool) {
+	if fi, err := os.Stat("/dev/full"); err != nil || fi.Mode()&os.ModeCharDevice == 0 {
+		return
+	}
+	last := len(s.Procs) - 1
+	if last < 0 || sim.Res[last].Code > 1 || sim.Res[last].Crash != "" {
+		return
+	}
+	step := -1
+	for _, st := range sim.Res[last].Steps {
+		if st.Kind == simos.SStdout {
+			step = st.N
+			break
+		}
+	}
+	if step < 0 {
+		return
+	}
+	d := filepath.Join(dir, "full")
+	if err := materialise(d, s); err != nil {
+		return
+	}
+	var prev []byte
+	var ro realOut
+	for j, p := range s.Procs {
+		var in []byte
+		if p.Stdin != nil {
+			switch {
+			case p.Stdin.From == "data":
+				in = p.Stdin.Data
+			case p.Stdin.From == "prev":
+				in = prev
+			case strings.HasPrefix(p.Stdin.From, "file:"):
+				in, _ = os.ReadFile(filepath.Join(d, strings.TrimPrefix(p.Stdin.From, "file:")))
+			}
+		}
+		if p.Arg0 == "" {
+			p.Arg0 = s.Arg0
+		}
+		var err error
+		ro, err = runRealTo(bins[p.Bin], d, p, in, j == last)
+		if err != nil {
+			return
+		}
+		prev = ro.Stdout
+	}
+	s2 := s
+	s2.Procs = append([]ProcSpec(nil), s.Procs...)
+	s2.Procs[last].Faults = []simos.Fault{{Step: step, Kind: simos.FStdoutENOSPC}}
+	flt := runSession(s2, fsFromSession(s.Files, s.Dirs, s.Links), false, false)
+	fr := flt.Res[last]
+	res.StdoutFull++
+	ok := fr.Code == ro.Code && (len(fr.Stderr) > 0) == (len(ro.Stderr) > 0)
+	if ok {
+		names := flt.FSPost[last].Names()
+		if len(names) != len(ro.Files) {
+			ok = false
+		}
+		for _, n := range names {
+			if w, have := ro.Files[n]; !have || w != string(flt.FSPost[last].Files[n]) {
+				ok = false
+			}
+		}
+	}
+	if !ok {
+		res.StdoutFullMismatch++
+		res.Mismatch++
+		msg := fmt.Sprintf("stdout on /dev/full: %s %q: sim code=%d stderr=%s | real code=%d stderr=%s", s.Procs[last].Bin, s.Procs[last].Argv, fr.Code, show(maskStamp(fr.Stderr)), ro.Code, show(maskStamp(ro.Stderr)))
+		if res.First == "" {
+			res.First = msg
+		}
+		if verbose {
+			fmt.Fprintln(os.Stderr, "MISMATCH", msg)
+		}
+	}
 }
 
 func keysOf(m map[string]string) []string {
